@@ -347,3 +347,31 @@ fn c14_sx127x_start_ops() {
     kani::cover!(res.is_ok() && k == 4, "verif-reached: cad started");
     kani::cover!(k == 3, "verif-reached: duty cycle refused");
 }
+
+// single reception: the symbol-count timeout in the chip when RXSINGLE starts covers the one asked for (RegModemConfig2[1:0] |
+// RegSymbTimeoutLsb, 10 bits); register-file contract on, so that the read-modify-write composes
+// @verif props=C17,C10 obligation=Sx127x::do_rx.symbol_timeout_passed label=proved-complete tier=quick bound="single (any symbol count), continuous; arbitrary prior register file (A-chip register-file contract)"
+#[kani::proof]
+#[kani::unwind(130)]
+fn c17_sx127x_do_rx_symbol_timeout() {
+    tape::init();
+    unsafe { REGS.on = true; let v = tape::u8(); let mut i = 0; while i < 128 { REGS.r[i] = v; i += 1; } REGS.r[0x1E] = tape::u8(); REGS.r[0x1F] = tape::u8(); }
+    let mut r = Sx127x::new(MockSpi, MockIv, Config { chip: Sx1276, tcxo_used: false, tx_boost: false, rx_boost: false });
+    let single = tape::boolean();
+    let n = tape::u16();
+    let cfg2_before = unsafe { REGS.r[0x1E] };
+    let res = r.do_rx(if single { RxMode::Single(n) } else { RxMode::Continuous });
+    if res.is_ok() {
+        let regs = unsafe { &*(&raw const REGS) };
+        let programmed = (((regs.r[0x1E] & 0x03) as u32) << 8) | regs.r[0x1F] as u32;
+        assert!(regs.r[0x1E] & 0xfc == cfg2_before & 0xfc, "the other fields of RegModemConfig2 (SF, CRC) are preserved");
+        if single {
+            assert!(programmed >= core::cmp::min(n as u32, 1023), "C17 the symbol timeout in force for a single reception is never shorter than requested, up to the chip maximum (1023)");
+            assert!(regs.r[0x01] & 0x07 == 0x06, "RXSINGLE commanded");
+        } else {
+            assert!(regs.r[0x01] & 0x07 == 0x05, "RXCONTINUOUS commanded");
+        }
+    }
+    kani::cover!(res.is_ok() && single && n > 100, "verif-reached: single");
+    kani::cover!(res.is_ok() && !single, "verif-reached: continuous");
+}
